@@ -27,12 +27,15 @@ def run_c12(prop, tier):
         cat = catalog.load_events()
         versions = {m: d["version"] for m, d in cat.items()}
         traces = mutate.base_traces(versions)
+        # a fifth base, emulated with the breakdown view (-b), for which every thread must carry nosv.can_breakdown
+        traces["bd2"] = mutate.base_traces(versions, for_c19=True)["bd2"]
+        eflags = lambda name: ["-l", "-b"] if name == "bd2" else ["-l"]
         base = scratch.sub("t")
         jobs = []
         for name, tr in traces.items():
             td = os.path.join(base, "base")
             write_files(td, mutate.files_of(tr))
-            rc, out, err = emusrv.run_tool(emu, ["-l", td])
+            rc, out, err = emusrv.run_tool(emu, eflags(name) + [td])
             if rc != 0:
                 raise InfraError("base trace %s is not accepted by ovniemu -l: %s" % (name, err[-500:]))
             for (label, files, verdict) in mutate.operators(tr, tier):
@@ -78,7 +81,7 @@ def run_c12(prop, tier):
             name, label, files, verdict = j
             td = os.path.join(base, "w%d" % os.getpid())
             write_files(td, files)
-            rc, out, err = emusrv.run_tool(emu, ["-l", td], timeout=30)
+            rc, out, err = emusrv.run_tool(emu, eflags(name) + [td], timeout=30)
             ok = "emulation finished ok" in err
             e = [l for l in err.split("\n") if "ERROR" in l][:1]
             return rc, ok, (e[0] if e else "")[:200]
@@ -102,7 +105,7 @@ def run_c12(prop, tier):
                         {"kind": "accepted-invalid", "op": k, "detail": ":".join(label.split(":")[2:]) if k in ("nojumbo",) else k})
         ctx.cov["distinct_nontrivial"] = ninv
         ctx.cov["by_operator"] = kinds
-        ctx.cov["rule"] = ("four base traces (nOS-V with jumbo type events and a task; Nanos6; MPI+TAMPI+marks; two looms with ranks, OpenMP/NODES/kernel) x "
+        ctx.cov["rule"] = ("five base traces (nOS-V with jumbo type events and a task; Nanos6; MPI+TAMPI+marks; two looms with ranks, OpenMP/NODES/kernel; two looms of nOS-V tasks emulated with -b) x "
                            "every single corruption: truncation at every byte offset, swap of every adjacent pair of events with different clocks, every header "
                            "byte x {00,ff,+1}, model byte of every event -> not-required / unregistered model, unknown value, every wrong payload size of "
                            "size-checked events, jumbo type event replaced by a non-jumbo one, removal / 6 replacement values of every metadata key, truncated JSON; "
